@@ -10,8 +10,15 @@
 //!   str <s> <width> <delim>        -> ok:<hex of result> | panic
 //!   line <items> <width> <delim>   -> ok:<hex>/<hex>… (`~` = no label left) | panic | timeout
 //!                                     (<items> = `~` or string tokens joined by `/`)
+//!   seq <op>;<op>;…                a history on ONE `Line` value: `n<s>` Line::new, `i<s>` .item, `u<s>` push,
+//!                                  `e<s>/<s>…` .extend, `s` .space(), `p<w>` pad, `t<w>|<delim>` truncate, `w` width()
+//!                                  -> `w=<n>` per query, `<labels>@<Line::width()>` after each truncation and at the
+//!                                  end, joined by `;` (`timeout` / `panic` where the history stopped)
+//!   str2|lab2 <s> <w1> <d1> <w2> <d2>   str / Label truncated, and the result truncated again -> ok:<hex>;ok:<hex>
 //!
-//! Oracle: no panic, termination (watchdog), real `Cell::width` of the result <= width. The additivity
+//! Oracle: no panic, termination (watchdog), real `Cell::width` of the result <= width; in histories also
+//! `Line::width()` == sum of the measured widths of the labels after every operation, and a value that
+//! fits is left alone by a later truncation to the same or a larger width. The additivity
 //! hypothesis of the theorems (width of result = sum of the widths of the clusters it was assembled
 //! from) is checked on every case and counted (`additive` / `width-not-additive`).
 
@@ -61,6 +68,132 @@ impl Worker {
 
 thread_local! {
     static WORKER: std::cell::RefCell<Option<Worker>> = const { std::cell::RefCell::new(None) };
+    static SEQ_WORKER: std::cell::RefCell<Option<SeqWorker>> = const { std::cell::RefCell::new(None) };
+}
+
+/// One operation of a history on a single `Line` value.
+#[derive(Clone, Debug)]
+enum SeqOp {
+    New(String),
+    Item(String),
+    Push(String),
+    Extend(Vec<String>),
+    Space,
+    Pad(usize),
+    Truncate(usize, String),
+    Width,
+}
+
+/// What the worker reports while it runs a history.
+enum SeqMsg {
+    /// A piece of the canonical output (if any) and oracle failures found after an operation.
+    Step(Option<String>, Vec<(String, String)>),
+    Done,
+    Panic(String),
+}
+
+/// Same watchdog, for histories: the worker reports after every operation, so that what happened before
+/// a truncation that never returns is still known.
+struct SeqWorker {
+    jobs: std::sync::mpsc::Sender<Vec<SeqOp>>,
+    results: std::sync::mpsc::Receiver<SeqMsg>,
+}
+
+fn contents(line: &Line) -> Vec<String> {
+    line.clone().into_iter().map(|l| l.content().to_owned()).collect()
+}
+
+fn show_items(items: &[String]) -> String {
+    if items.is_empty() {
+        "~".to_string()
+    } else {
+        items.iter().map(|i| hex(i.as_bytes())).collect::<Vec<_>>().join("/")
+    }
+}
+
+impl SeqWorker {
+    fn spawn() -> SeqWorker {
+        let (jobs, job_rx) = std::sync::mpsc::channel::<Vec<SeqOp>>();
+        let (res_tx, results) = std::sync::mpsc::channel::<SeqMsg>();
+        std::thread::spawn(move || {
+            while let Ok(ops) = job_rx.recv() {
+                let tx = res_tx.clone();
+                let r = catch(move || {
+                    let mut line = Line::default();
+                    for op in ops.into_iter() {
+                        let mut piece = None;
+                        let mut fit = None;
+                        match &op {
+                            SeqOp::New(s) => line = Line::new(s.as_str()),
+                            SeqOp::Item(s) => line = line.item(s.as_str()),
+                            SeqOp::Push(s) => line.push(s.as_str()),
+                            SeqOp::Extend(ss) => {
+                                line = line.extend(ss.iter().map(|s| radicle_term::Label::new(s.as_str())))
+                            }
+                            SeqOp::Space => line = line.space(),
+                            SeqOp::Pad(w) => Line::pad(&mut line, *w),
+                            SeqOp::Truncate(w, d) => {
+                                Line::truncate(&mut line, *w, d);
+                                fit = Some(*w);
+                            }
+                            SeqOp::Width => piece = Some(format!("w={}", Line::width(&line))),
+                        }
+                        // Oracle: what `Line::width()` says is what the labels measure; a truncated line fits.
+                        let items = contents(&line);
+                        let reported = Line::width(&line);
+                        let measured: usize = items.iter().map(|i| Cell::width(i.as_str())).sum();
+                        let mut viol = vec![];
+                        if reported != measured {
+                            viol.push((
+                                "line-width-mismatch".to_string(),
+                                format!("after {op:?}: Line::width() = {reported} but the labels {items:?} measure {measured}"),
+                            ));
+                        }
+                        if let Some(w) = fit {
+                            if measured > w {
+                                viol.push((
+                                    "line-over-width".to_string(),
+                                    format!("after {op:?}: labels {items:?} measure {measured}"),
+                                ));
+                            }
+                            piece = Some(format!("{}@{}", show_items(&items), reported));
+                        }
+                        tx.send(SeqMsg::Step(piece, viol)).ok();
+                    }
+                    // final snapshot
+                    let items = contents(&line);
+                    tx.send(SeqMsg::Step(Some(format!("{}@{}", show_items(&items), Line::width(&line))), vec![])).ok();
+                });
+                let done = match r {
+                    Ok(()) => SeqMsg::Done,
+                    Err(msg) => SeqMsg::Panic(msg),
+                };
+                if res_tx.send(done).is_err() {
+                    break;
+                }
+            }
+        });
+        SeqWorker { jobs, results }
+    }
+}
+
+fn parse_seq_op(t: &str) -> Option<SeqOp> {
+    let clean = |s: String| if s.contains('\n') || s.contains('\r') { None } else { Some(s) };
+    let text = |t: &str| parse_str(t).and_then(|(s, _)| clean(s));
+    match t.chars().next()? {
+        'w' if t == "w" => Some(SeqOp::Width),
+        's' if t == "s" => Some(SeqOp::Space),
+        'n' => Some(SeqOp::New(text(&t[1..])?)),
+        'i' => Some(SeqOp::Item(text(&t[1..])?)),
+        'u' => Some(SeqOp::Push(text(&t[1..])?)),
+        'e' => Some(SeqOp::Extend(t[1..].split('/').map(text).collect::<Option<Vec<_>>>()?)),
+        'p' => Some(SeqOp::Pad(t[1..].parse().ok()?)),
+        't' => {
+            let (w, d) = t[1..].split_once('|')?;
+            Some(SeqOp::Truncate(w.parse().ok()?, text(d)?))
+        }
+        _ => None,
+    }
 }
 
 /// One measured cluster.
@@ -278,6 +411,118 @@ fn run_case(input: &str) -> Outcome {
                 }
             }
         }
+        ["seq", ops] => {
+            let Some(ops) = ops.split(';').map(parse_seq_op).collect::<Option<Vec<SeqOp>>>() else { return bad() };
+            // `Line::new` replaces the value: only meaningful as the first operation.
+            if ops.iter().skip(1).any(|o| matches!(o, SeqOp::New(_))) {
+                return bad();
+            }
+            // the model's pad label: spaces are one-byte, one-column, whitespace clusters of their own
+            if tokenize("   ").as_deref() != Some("1:w20,1:w20,1:w20") {
+                return bad();
+            }
+            if TIMEOUTS.load(Ordering::SeqCst) >= 3 {
+                return Outcome::new("not-run").tag("seq-not-run").trivial();
+            }
+            let n_trunc = ops.iter().filter(|o| matches!(o, SeqOp::Truncate(..))).count();
+            let mut pieces: Vec<String> = vec![];
+            let mut viols: Vec<(String, String)> = vec![];
+            let mut end = "timeout";
+            SEQ_WORKER.with(|w| {
+                let mut w = w.borrow_mut();
+                if w.is_none() {
+                    *w = Some(SeqWorker::spawn());
+                }
+                let worker = w.as_ref().unwrap();
+                worker.jobs.send(ops.clone()).expect("worker alive");
+                loop {
+                    match worker.results.recv_timeout(Duration::from_secs(5)) {
+                        Ok(SeqMsg::Step(p, v)) => {
+                            pieces.extend(p);
+                            viols.extend(v);
+                        }
+                        Ok(SeqMsg::Done) => {
+                            end = "done";
+                            break;
+                        }
+                        Ok(SeqMsg::Panic(msg)) => {
+                            end = "panic";
+                            viols.push(("line-truncate-panic".into(), format!("history {ops:?} panicked: {msg}")));
+                            break;
+                        }
+                        Err(_) => break,
+                    }
+                }
+                if end == "timeout" {
+                    *w = None;
+                }
+            });
+            if end == "timeout" {
+                TIMEOUTS.fetch_add(1, Ordering::SeqCst);
+                pieces.push("timeout".into());
+                viols.push((
+                    "line-truncate-nontermination".into(),
+                    format!("history {ops:?} did not finish within 5 s (got as far as {pieces:?})"),
+                ));
+            } else if end == "panic" {
+                pieces.push("panic".into());
+            }
+            let mut o = Outcome::new(pieces.join(";")).tag(format!("seq-{end}")).tag(format!("seq-truncations-{}", n_trunc.min(3)));
+            // The once-only report of a width mismatch is enough.
+            viols.dedup_by(|a, b| a.0 == b.0);
+            o.violations = viols;
+            if ops.iter().any(|x| matches!(x, SeqOp::Pad(_))) {
+                o = o.tag("seq-with-pad");
+            }
+            o.nontrivial = n_trunc >= 2;
+            o
+        }
+        [op @ ("str2" | "lab2"), s, w1, d1, w2, d2] => {
+            let (Some((s, _)), Ok(w1), Some((d1, _)), Ok(w2), Some((d2, _))) =
+                (parse_str(s), w1.parse::<usize>(), parse_str(d1), w2.parse::<usize>(), parse_str(d2))
+            else {
+                return bad();
+            };
+            let is_label = *op == "lab2";
+            if is_label && (s.contains('\n') || s.contains('\r')) {
+                return bad();
+            }
+            let cut = |t: &str, w: usize, d: &str| -> Result<String, String> {
+                if is_label {
+                    catch(|| radicle_term::Label::new(t).truncate(w, d).content().to_owned())
+                } else {
+                    catch(|| t.truncate(w, d))
+                }
+            };
+            let mut o;
+            match cut(&s, w1, &d1) {
+                Err(msg) => {
+                    o = Outcome::new("panic").violation("truncate-panic", format!("{s:?}.truncate({w1}, {d1:?}) panicked: {msg}"));
+                }
+                Ok(o1) => match cut(&o1, w2, &d2) {
+                    Err(msg) => {
+                        o = Outcome::new(format!("ok:{};panic", hex(o1.as_bytes())))
+                            .violation("truncate-panic", format!("{o1:?}.truncate({w2}, {d2:?}) panicked: {msg}"));
+                    }
+                    Ok(o2) => {
+                        o = Outcome::new(format!("ok:{};ok:{}", hex(o1.as_bytes()), hex(o2.as_bytes())));
+                        for (out, w) in [(&o1, w1), (&o2, w2)] {
+                            let real = Cell::width(out.as_str());
+                            if real > w {
+                                o = o.violation("truncate-over-width", format!("{out:?} has width {real} > {w}"));
+                            }
+                        }
+                        if w2 >= w1 && o2 != o1 {
+                            o = o.violation(
+                                "truncate-not-idempotent",
+                                format!("{o1:?} (fits {w1}) changed to {o2:?} when truncated to {w2}"),
+                            );
+                        }
+                    }
+                },
+            }
+            o.tag(format!("{op}-run"))
+        }
         _ => bad(),
     }
 }
@@ -365,6 +610,101 @@ fn gen_line(rng: &mut Rng) -> Option<String> {
     Some(format!("line {} {} {}", l, w, tokenize(&delim)?))
 }
 
+/// Delimiters that cannot merge with the cluster before them (no combining mark / pictograph first), so
+/// that every intermediate value of a history is segmented as the model assumes.
+const SAFE_DELIMS: &[&str] = &["", "", "…", "..", "...", "界", " ", "->"];
+
+fn seq_string(rng: &mut Rng) -> String {
+    match rng.below(6) {
+        0 => "🍍🍍".into(),
+        1 => "ab".into(),
+        2 => format!("a{}", rng.pick(&[" ", "  ", "\u{3000}", " \u{3000} "])),
+        _ => random_string(rng, 4, true).replace('\u{200d}', ""),
+    }
+}
+
+fn gen_seq(rng: &mut Rng) -> Option<String> {
+    let mut ops: Vec<String> = vec![];
+    let mut total = 0usize;
+    let n_build = rng.range(1, 4);
+    for k in 0..n_build {
+        let s = seq_string(rng);
+        total += Cell::width(s.as_str());
+        let t = tokenize(&s)?;
+        if k == 0 && rng.chance(3, 4) {
+            ops.push(format!("n{t}"));
+        } else {
+            match rng.below(5) {
+                0 => ops.push(format!("u{t}")),
+                1 => {
+                    let s2 = seq_string(rng);
+                    total += Cell::width(s2.as_str());
+                    ops.push(format!("e{t}/{}", tokenize(&s2)?));
+                }
+                2 => {
+                    total += 1;
+                    ops.push(format!("i{t}"));
+                    ops.push("s".into());
+                }
+                _ => ops.push(format!("i{t}")),
+            }
+        }
+        if rng.chance(1, 8) {
+            ops.push("w".into());
+        }
+    }
+    if rng.chance(1, 3) {
+        let w = total + rng.below(9) as usize;
+        total = total.max(w);
+        ops.push(format!("p{w}"));
+    }
+    let n_trunc = rng.range(1, 3);
+    let mut w = total;
+    for k in 0..n_trunc {
+        let d: &str = *rng.pick(SAFE_DELIMS);
+        // mostly decreasing widths, with small steps (the slack a cut can leave is 1-3 columns)
+        w = match rng.below(8) {
+            0 => rng.below(total as u64 + 3) as usize, // non-monotone
+            1 => 0,
+            2 => w,
+            3 | 4 => w.saturating_sub(1 + rng.below(3) as usize),
+            _ => rng.below(w as u64 + 1) as usize,
+        };
+        ops.push(format!("t{w}|{}", tokenize(d)?));
+        if rng.chance(1, 2) {
+            ops.push("w".into());
+        }
+        if k + 1 < n_trunc && rng.chance(1, 6) {
+            let p = w + rng.below(6) as usize;
+            ops.push(format!("p{p}"));
+            w = p;
+        }
+    }
+    Some(format!("seq {}", ops.join(";")))
+}
+
+fn gen_twice(rng: &mut Rng) -> Option<String> {
+    let is_label = rng.bool();
+    let s = if is_label { random_string(rng, 8, true) } else { random_string(rng, 8, false) }.replace('\u{200d}', "");
+    let (d1, d2): (&str, &str) = (*rng.pick(SAFE_DELIMS), *rng.pick(SAFE_DELIMS));
+    let total = Cell::width(s.as_str());
+    let w1 = pick_width(rng, total, Cell::width(d1));
+    let w2 = match rng.below(4) {
+        0 => w1,
+        1 => w1 + rng.below(3) as usize,
+        _ => rng.below(w1 as u64 + 1) as usize,
+    };
+    Some(format!(
+        "{} {} {} {} {} {}",
+        if is_label { "lab2" } else { "str2" },
+        tokenize(&s)?,
+        w1,
+        tokenize(d1)?,
+        w2,
+        tokenize(d2)?
+    ))
+}
+
 /// All strings of length `0..=max` over a small alphabet.
 fn strings(alphabet: &[char], max: usize) -> Vec<String> {
     let mut all = vec![String::new()];
@@ -387,6 +727,9 @@ fn strings(alphabet: &[char], max: usize) -> Vec<String> {
 fn main() {
     let mut ctx = Ctx::from_args("C26");
     if !ctx.run_fixed(run_case) {
+        // The generated cases get their own budget of runaway threads, so that they are exercised even when
+        // corpus cases have already timed out.
+        TIMEOUTS.store(0, Ordering::SeqCst);
         let mut rng = ctx.rng();
         // Exhaustive part: every string up to a length over {a, ' ', U+3000, 界, U+0301}, widths 0..6,
         // delimiters {"", "…", "..", "界"}; two-label lines of shorter strings.
@@ -426,6 +769,38 @@ fn main() {
                 }
             }
         }
+        // Histories on one value, exhaustively for small shapes: a label (or two), optionally padded,
+        // truncated twice.
+        let shapes = strings(&['a', ' ', '\u{3000}', '界'], 2);
+        for a in shapes.iter() {
+            for pad in [0usize, 3] {
+                for w1 in 0..6usize {
+                    for w2 in 0..=w1 {
+                        for delim in ["", "…", "..."] {
+                            let (Some(at), Some(dt)) = (tokenize(a), tokenize(delim)) else {
+                                skipped += 1;
+                                continue;
+                            };
+                            let padop = if pad > 0 { format!(";p{}", Cell::width(a.as_str()) + pad) } else { String::new() };
+                            let input = format!("seq n{at}{padop};t{w1}|{dt};w;t{w2}|{dt};w");
+                            let o = run_case(&input);
+                            ctx.count("enumerated-seq");
+                            ctx.record(&input, o);
+                        }
+                    }
+                }
+            }
+        }
+        for _ in 0..ctx.size(6_000, 150_000) {
+            let input = if rng.chance(2, 3) { gen_seq(&mut rng) } else { gen_twice(&mut rng) };
+            match input {
+                Some(input) => {
+                    let o = run_case(&input);
+                    ctx.record(&input, o);
+                }
+                None => skipped += 1,
+            }
+        }
         for _ in 0..ctx.size(12_000, 400_000) {
             let input = if rng.chance(3, 10) { gen_line(&mut rng) } else { gen_str(&mut rng) };
             match input {
@@ -444,8 +819,11 @@ fn main() {
          alphabet of ASCII, single/multi-byte whitespace, wide, zero-width, combining, ZWJ sequences, regional indicators, \
          conjoining jamo, controls and random scalar values (often with a whitespace tail), 14 delimiters incl. empty, \
          whitespace, wide and combining-initial ones, widths at 0, total, total-1, delimiter width +-1 and uniform; lines \
-         of 0-4 such labels. Non-trivial = the text is wider than the requested width (something must be cut); distinct \
-         by input text",
+         of 0-4 such labels. Histories on ONE value: a Line built by new/item/push/extend/space/pad, then 1-3 \
+         truncations (mostly decreasing widths, steps of 1-3 columns, also non-monotone and re-padded in between) with \
+         width() queries in between, exhaustively for 1-2 character labels x pad x w1 >= w2 x 3 delimiters; str/Label \
+         truncated twice. Non-trivial = the text is wider than the requested width (something must be cut) / a history \
+         with at least two truncations; distinct by input text",
         false,
     );
 }
